@@ -28,7 +28,7 @@ impl ProgProperty for C03 {
     }
     fn mix(&self, tier: Tier) -> Mix {
         // the vote oracle costs a watchdog window whenever the interpreters do not finish
-        Mix { raw: 10, strukt: 30, div: 0, wide: 40, big: if tier == Tier::Quick { 4 } else { 12 }, roam: 5, deep: 3, commented: 2 }
+        Mix { raw: 10, strukt: 30, div: 0, wide: 40, big: if tier == Tier::Quick { 4 } else { 12 }, roam: 5, deep: 3, commented: 2, hibits: 8 }
     }
     fn admit(&self, r: &RefRun) -> Result<(), &'static str> {
         match r.fate {
